@@ -78,6 +78,9 @@ struct vs_shared {
 // canonical enabled list (running thread first if enabled, then ascending ids) taken at point i;
 // after the prefix choice 0 is taken.  `horizon` = max number of points.
 void vs_begin(struct vs_shared *shm, const int *choices, int nchoices, int horizon);
+// Same, but the prefix is given as THREAD IDS (used to force model traces onto the implementation);
+// a forced thread that is not enabled at its point ends the run with VS_DIVERGED.
+void vs_begin_tids(struct vs_shared *shm, const int *tids, int ntids, int horizon);
 // Leave controlled mode (every other controlled thread must have finished; otherwise waits for
 // them under the scheduler as a JOIN-all).
 void vs_end(void);
